@@ -3,7 +3,12 @@ import Csverif.Driver.Wire
 /- Line protocol, storage layer.  Values and tags are opaque tokens (no spaces).
    `create T V` | `update T V E` | `delete T E` | `read T E` | `readall T|~` | `reopen` ; E = nat or `~`.
    sqlite layer only: `readpaged T|~ P B` = the model's keyset-paged `read_all` with page size P and cursor rule
-   `pos := last id + B` (Model/Storage.lean `pagedReadAll`; B = 0 is the correct rule). -/
+   `pos := last id + B` (Model/Storage.lean `pagedReadAll`; B = 0 is the correct rule).
+   layer `sqliteconn` (Model/Storage.lean `namespace Conn`, configuration of the code: every connection autocommit):
+   `reset` | `resetcfg I R` (I, R = T/F: autocommit of the first / of a replacement connection) | `<op>` |
+   `fault N F K <op>` (the next N executes raise OperationalError, F = T: fetchall raises; K = how many executes of the
+   call run before the first fault - only `reopen` issues more than one - is the harness's business and ignored here) | `freshall T|~` | `lock` | `unlock`;
+   answers as above, `!OperationalError`, `busy`. -/
 namespace CS.Driver.Storage
 open CS.Storage CS.Wire
 
@@ -52,5 +57,37 @@ def stepSqliteR (t : Sqlite.Table String) (toks : List String) : Sqlite.Table St
   match toks with
   | ["reset"] => ([], "unit")
   | _ => stepSqlite t toks
+
+def encCRes : Conn.CRes String → String
+  | .ok r => encRes r
+  | .operationalError => "!OperationalError"
+  | .busy => "busy"
+
+structure ConnD where
+  cfg : Conn.Cfg
+  st  : Conn.St String
+
+def connInit : ConnD := { cfg := { initAuto := true, reconnAuto := true }, st := Conn.init { initAuto := true, reconnAuto := true } }
+
+def stepConn (d : ConnD) (toks : List String) : ConnD × String :=
+  let go (c : Conn.COp String) : ConnD × String :=
+    let (s', r) := Conn.step d.cfg d.st c
+    ({ d with st := s' }, encCRes r)
+  match toks with
+  | ["reset"] => (connInit, "unit")
+  | ["resetcfg", i, r] =>
+    let cfg : Conn.Cfg := { initAuto := i == "T", reconnAuto := r == "T" }
+    ({ cfg := cfg, st := Conn.init cfg }, "unit")
+  | ["freshall", t] => go (.fresh (if t == "~" then none else some t))
+  | ["lock"] => go .lock
+  | ["unlock"] => go .unlock
+  | "fault" :: n :: f :: _k :: rest =>
+    match n.toNat?, parseOp rest with
+    | some n, some op => go (.call op n (f == "T"))
+    | _, _ => (d, "bad-op")
+  | _ =>
+    match parseOp toks with
+    | none => (d, "bad-op")
+    | some op => go (.call op 0 false)
 
 end CS.Driver.Storage
